@@ -787,9 +787,10 @@ package quickfix
 //@   ensures @nodelivery s.application.#n == old(s.application.#n)
 //@   modifies heap Gh.chan.sent, s.toSend, s.toSend[*], fresh E.sl.uint8, heap E.quickfix.Tag, heap H.quickfix.TagValue.*, fresh E.uint8, fresh H.quickfix.Message.*, fresh H.quickfix.FieldMap.*, fresh H.quickfix.tagSort.*, fresh MH.quickfix.Tag.quickfix.field, fresh H.bytes.Buffer.*, fresh H.sync.RWMutex.*, fresh H.sync.Mutex.*, fresh H.time.Time.*, fresh H.quickfix.FIXUTCTimestamp.*
 
-// resendState.FixMsgIn is not under contract: delivering the kept messages needs "every kept message is still
-// well-formed" across handler calls whose frame is not stated (not decided, see DESIGN.md). Its two requests for the
-// next chunk were checked while the contract was being developed (begin == expected number, end == resendRangeEnd).
+// resendState.FixMsgIn is under contract further down (next to the interface contract it implements): its requests for
+// the next chunk begin at the expected number and end at resendRangeEnd. Delivering the kept messages needs "every kept
+// message is still well-formed" across handler calls whose frame is not stated: those four obligations are named by
+// `undecided` clauses (assumed, listed in the evidence), not proved.
 
 // ---- the other states ---------------------------------------------------------------------------------------------
 // logon state: nothing but a Logon is processed (C08); a gap detected on the Logon starts a recovery (C04)
@@ -970,10 +971,17 @@ package quickfix
 //@   freshonly Gh.chan.closed, H.quickfix.stateMachine.*
 //@   closedworld
 
-// resendState.FixMsgIn against the interface contract: stated, not verified (see the note on resendState above)
+// resendState.FixMsgIn: verified against the interface contract except the four obligations named undecided (the inbound
+// message after the first handler call, and the well-formedness / counter bound / empty queue before each kept message)
 //@ func (s resendState) FixMsgIn [C01,C04]
-//@   trusted
 //@   implements sessionState.FixMsgIn
+//@   atcall sendResendRequest @begin arg1 == session.store.#T
+//@   atcall sendResendRequest @end arg2 == s.resendRangeEnd
+//@   undecided (FieldMap).GetField)/safety:index
+//@   undecided (inSession).FixMsgIn.flush#2
+//@   undecided (inSession).FixMsgIn.bound#2
+//@   undecided (inSession).FixMsgIn.msg#2
+//@   loop 1 invariant @carry nextState != nil && stok(nextState) && sessfull(session) && session.State == old(session.State)
 
 // fixMsgIn: the state's handler decides the next state; leaving a connected state goes through setState
 //@ func (sm *stateMachine) fixMsgIn [C01,C08]
